@@ -346,6 +346,8 @@ class Conn:
         self.dgram("s", [self.short_pkt("s", done)], tag="s-done")
         if ncid and ncid.get("c_len") is not None:
             new_c = rng.randbytes(ncid["c_len"])
+            if ncid.get("equal"):
+                new_c = new_s[:ncid["c_len"]]      # both endpoints happen to issue the same connection ID (legal: they choose independently)
             self.dgram("c", [self.short_pkt("c", qf.new_connection_id(1, new_c, token=rng.randbytes(16))[0] + ack)], tag="c-ncid")
         for i, (d, specs) in enumerate(script):
             if ncid and i >= ncid.get("after", 1):
